@@ -17,10 +17,29 @@ Tie        : correspondence `gc_faults`: tables with 1-4 retained snapshots (sha
              variants, several Avro blocks; plus the STREAM of each list / manifest failing part-way (connection reset,
              short read) at spread / block-boundary offsets.  What a damaged file or faulty stream amounts to (records
              decoded before the failure, exception class) is decided by an independent record-by-record decode; the model
-             gets the content class CPartialAvro (decoded, caught) resp. the fault FRaise / FRaiseX, real vs model.  The pointer plane (version hint, metadata JSON)
-             is outside the model: faults at every call of refresh() / the hint check and damage of the current metadata
-             file {missing, garbage, empty, truncated} are judged by the oracle only; a stale hint is recorded, not judged.
+             gets the content class CPartialAvro (decoded, caught) resp. the fault FRaise / FRaiseX, real vs model.  The pointer plane: which
+             version a collection works from is Model/GCPointer.v; BYTE damage of the current metadata file {missing, garbage,
+             empty, truncated} and faults at every call of refresh() / the hint check are judged by the oracle only (what
+             json.loads makes of bytes is not modelled); what the decoder makes of the DOCUMENT is Model/Doc.v / GCDoc.v (below);
+             a stale hint is recorded, not judged.
              Every library call runs under a time limit (SIGALRM) and a worker memory limit: a hang is a `hang:` violation.
+Documents  : STRUCTURED damage (harness/lib/docdamage.py): the file stays well-formed JSON / a valid Avro container, but a key is
+             dropped, null, of another JSON type (an empty and a non-empty representative of every other type: 0, 7, false, true,
+             "", "x", [], [1], {}, {"a": 1}) or a value is emptied in place -- at EVERY key path (first / last array element) of
+             the current metadata file, of reachable Avro manifest lists / manifests (schema and records changed together; null in
+             all records or only the last) and of the same files in the legacy JSON format (fifth table variant).  The readers'
+             demands on these documents are REGENERATED from the source (translator/gen_meta.py -> Gen/GenMeta.v: the shapes of
+             _dict_to_metadata and of the record loops / JSON fallbacks of read_manifest(_list)_file as terms of Model/Doc.v) and
+             Model/GCDoc.v puts the collector on top: C07_metadata_document_fail_closed (every document: refused = nothing
+             deleted, or the collection worked from the manifest lists of ALL its snapshots and is safe for them),
+             C07_lost_section_refused (snapshots section missing / null / not a list / a snapshot without a string manifest
+             list is never "a table without snapshots"), C07_readable_records_complete, C07_structured_damage_aborts.
+             Tie: `doc_decode` (the regenerated shape vs the library's own decoder on every damaged metadata document: refused,
+             or the same manifest lists), `doc_runs` (every structured-damage run vs collect_doc / gc_run with the document's
+             content class: raise with nothing deleted and abort phase, or deleted set, keep sets, call trace).
+             Oracle (property text): the collection raises -- any exception -- having deleted nothing, or every reachable and live
+             file is still in its keep sets.  Emptied in place (same type; zero records) = a well-formed document that says
+             something else: recorded, not judged; likewise a legacy JSON document without its `manifests` / `files` section.
 Oracle /   : implementation only (independent reader): an unparseable reachable file / failing stream -> the collection
 search       raises, or its keep sets (observed at _gc_prefix) still hold every reachable and live file; damage that still
              parses to different records is recorded, not judged; whenever collect raised -> GarbageCollectionAborted and the
@@ -49,22 +68,36 @@ REQ = gcsim.REQ
 TIMEOUT_MS = h5.TIMEOUT_MS
 
 MANIFEST_ENTRY = {
-    "level_text": "C07_fail_closed (every fault oracle: an abort raised while reachability / in-flight protection is established deletes "
+    "level_text": "C07_metadata_document_fail_closed / C07_lost_section_refused / C07_readable_records_complete / "
+                  "C07_structured_damage_aborts (every metadata document, every list of decoded list / manifest records: a document "
+                  "that lost a section, a key or a string the reachable set is computed from is refused -- raise, nothing deleted -- "
+                  "and a collection that runs worked from ALL the snapshots / entries the document carries) proved over the readers' "
+                  "demands REGENERATED from _dict_to_metadata / read_manifest(_list)_file (Gen/GenMeta.v), tied by running every "
+                  "structured damage (drop / null / retype / empty at every key path of the metadata JSON, of Avro and legacy-JSON "
+                  "lists and manifests) through the library and the model; "
+                  "C07_fail_closed (every fault oracle: an abort raised while reachability / in-flight protection is established deletes "
                   "nothing; otherwise only unreferenced, unprotected, old files are deleted), C07_damage (missing or unparseable reachable "
                   "list / manifest aborts before the first sweep, under any additional faults), C07_transient (a run that reaches the sweeps "
                   "read every list and manifest without an effective fault) and C07_marker_keep proved in Coq over the call-by-call collector "
                   "model with regenerated path kernel, for both orders of the two preparatory phases (regenerated MARKERS_FIRST); the model's "
                   "fault handling is tied to the code by injecting a fault at every storage call of real collections (4 fault kinds; thorough: "
                   "pairs) and every damage class on every reachable metadata-plane file, comparing abort phase, deleted set and call trace",
-    "level_note": "trusted: Coq kernel; translator/gen_norm.py (incl. the pinned try/except skeleton); wf_store; the pointer plane "
-                  "(metadata_manager.refresh(), collect()'s check that the hinted metadata file exists) is outside the model: faults and "
-                  "damage there are judged by the implementation-only oracle (any exception, nothing deleted); byte damage that still "
+    "level_note": "trusted: Coq kernel; translator/gen_norm.py (incl. the pinned try/except skeleton) and translator/gen_meta.py (reader "
+                  "shapes; fail closed on any use of the document outside its subset, e.g. a helper that defaults a missing section); "
+                  "wf_store; Schema.__post_init__ and the int()-keyed statistics maps are external validations (parameter `ext`, "
+                  "measured per document); json.loads / fastavro decoding themselves are not modelled: faults and BYTE damage of the "
+                  "pointer plane (metadata_manager.refresh(), collect()'s re-read of the hinted file) are judged by the "
+                  "implementation-only oracle (any exception, nothing deleted); a value emptied in place (a list / object / string of "
+                  "the same type, an Avro container with zero records) leaves a well-formed document that says something else "
+                  "(a manifest list with zero records is an empty snapshot): recorded, not judged -- this includes `snapshots: []` "
+                  "under a dangling current_snapshot_id; byte damage that still "
                   "decodes to DIFFERENT records (e.g. a flipped path character) is undetectable without checksums: recorded, not judged, "
                   "not compared; a short read ending exactly on an Avro block boundary likewise; a stale hint naming an older "
                   "existing version is C10's finding and only recorded; an abort raised by a sweep's own listing may follow deletions of "
                   "true orphans (the property's second disjunct) -- stated and proved as such; damage that still parses (a JSON object "
                   "without 'manifests' / 'files' reads as an EMPTY manifest) is modelled, recorded and not judged; local backend only",
-    "technique": "Coq proof for all fault oracles + exhaustive single-fault injection at every storage call (differential)",
+    "technique": "Coq proof for all fault oracles and all documents + reader shapes regenerated by the translator + exhaustive single-fault "
+                 "injection at every storage call and structured damage at every key path of every metadata-plane document (differential)",
     "design_ref": "DESIGN.md section 5 C07",
 }
 
@@ -120,6 +153,8 @@ def build_base(base: str, spec: Dict[str, Any]) -> Tuple[str, float]:
         leave_dead_writer(t, reader, root, spec["dead_writer"])
     if spec.get("multiblock"):
         reencode_multiblock(root, reader)
+    if spec.get("legacy_json"):
+        rewrite_legacy_json(root, reader)
     h5._plant(root, "data/orphan_a.parquet", b"PAR1 orphan")
     h5._plant(root, "metadata/manifests/orphan_m.avro", b"orphan manifest")
     if spec.get("live_tx", True):
@@ -185,6 +220,22 @@ def reencode_multiblock(root: str, reader: gcsim.IndepReader) -> None:
         fastavro.writer(bio, schema, recs, sync_interval=1)
         with open(full, "wb") as f:
             f.write(bio.getvalue())
+
+
+def rewrite_legacy_json(root: str, reader: gcsim.IndepReader) -> None:
+    """Every reachable list / manifest in the legacy JSON format (what a table written by an old version looks like; the
+    readers accept it through their JSON fallback)."""
+    import fastavro
+    todo = []
+    for s in reader.snapshots():
+        lk, mks, _dks = reader.snapshot_files(s)
+        todo += [("list", lk)] + [("manifest", mk) for mk in mks]
+    for kind, key in dict((k, (kd, k)) for kd, k in todo).values():
+        full = os.path.join(root, key)
+        with open(full, "rb") as f:
+            recs = list(fastavro.reader(f))
+        with open(full, "wb") as f:
+            f.write(docdamage.to_legacy_json(kind, recs))
 
 
 def byte_damages(bs: bytes, thorough: bool, rng: random.Random, exhaustive: bool = True) -> List[Tuple[Any, ...]]:
@@ -394,7 +445,8 @@ def run_table(spec: Dict[str, Any]) -> Dict[str, Any]:
             out["stats"]["fault_runs"] += 1
         # ---- the stream of a reachable list / manifest misbehaves PART-WAY (connection reset, short read): what that amounts to
         #      is decided by decoding the same faulty stream independently (fastavro only)
-        for role, ordinal, key in targets:
+        avro_targets = [] if spec.get("legacy_json") else targets        # byte positions / "still parses" are decided by an Avro decode
+        for role, ordinal, key in avro_targets:
             bs = open(os.path.join(root, key), "rb").read()
             orig = gcsim.avro_probe(gcsim.as_file(bs))
             for mode in ("raise", "eof"):
@@ -441,7 +493,7 @@ def run_table(spec: Dict[str, Any]) -> Dict[str, Any]:
                 out["stats"]["damage_runs"] += 1
         # ---- byte-level damage anywhere in the file: single-byte flips and truncations (header, block framing, EVERY record,
         #      every sync marker).  Whether the damaged bytes still parse is decided by an independent full decode.
-        for role, ordinal, key in targets:
+        for role, ordinal, key in avro_targets:
             bs = open(os.path.join(root, key), "rb").read()
             orig = gcsim.avro_probe(gcsim.as_file(bs))
             seen_effect = set()
@@ -502,7 +554,7 @@ def run_table(spec: Dict[str, Any]) -> Dict[str, Any]:
         #      deleted nothing, or every reachable and live file is still in its keep sets and on storage.  A value emptied in
         #      place (same type) leaves a well-formed document that says something else: recorded, not judged.
         import json
-        full_ops = thorough or only is not None
+        full_ops = (thorough and bool(spec.get("exhaustive", True))) or only is not None
 
         def doc_run(key: str, fmt: str, role: str, ordinal: int, op: Dict[str, Any], size: str) -> None:
             desc = {"type": "doc", "target": [role, ordinal], "op": op}
@@ -518,7 +570,14 @@ def run_table(spec: Dict[str, Any]) -> Dict[str, Any]:
                 r["doc"]["model_error"] = f"{type(e).__name__}: {e}"[:200]
             out["stats"]["doc_damage_runs"] = out["stats"].get("doc_damage_runs", 0) + 1
             gone = sorted((set(r["before"]) - set(r["after"])) & (reach | live))
-            if op["op"] in ("empty", "zero-records"):
+            legacy_section = (fmt == "json" and role != "current-metadata" and len(op["path"]) == 1
+                              and (op["op"] == "drop" or (op["op"] == "retype" and op["value"] in ("", {}))))
+            if legacy_section:
+                # the legacy JSON fallback reads a document WITHOUT its `manifests` / `files` section (or with an empty object /
+                # string there) as an EMPTY list / manifest: the interpretation already recorded for `{}` (json-empty)
+                r["violations"], r["not_judged"] = [], True
+                out["stats"]["doc_legacy_json_section_lost_reads_empty_not_judged"] = out["stats"].get("doc_legacy_json_section_lost_reads_empty_not_judged", 0) + 1
+            elif op["op"] in ("empty", "zero-records"):
                 r["violations"], r["not_judged"] = [], True
                 out["stats"]["doc_emptied_in_place_not_judged"] = out["stats"].get("doc_emptied_in_place_not_judged", 0) + 1
                 if gone:
@@ -783,6 +842,8 @@ def make_specs(ctx) -> List[Dict[str, Any]]:
         {"snaps": 2, "rewrite": True, "expire": False, "dead_writer": "append"},
         {"snaps": 3, "rewrite": False, "expire": True, "legacy_marker": True, "multiblock": True, "dead_writer": "delete_snapshot"},
         {"snaps": 4, "rewrite": True, "expire": True, "multi_append": 2, "multiblock": True, "dead_writer": "expire"},
+        # every reachable list / manifest in the legacy JSON format (JSON fallback of the readers)
+        {"snaps": 2, "rewrite": True, "expire": False, "multi_append": 2, "legacy_json": True},
     ]
     graces = [0] if quick else [0, 3600000]
     for vi, v in enumerate(variants):
@@ -837,6 +898,7 @@ def doc_correspondence(ctx, recs: List[Tuple[Dict[str, Any], Dict[str, Any]]], p
         else:
             stage_a.append(f"content_code ({DOC_CONTENT[m['kind']]} {ext} {m['term']})")
         idx_a.append((ri, run))
+    t_a = time.time()
     try:
         vals_a = eval_dedup(stage_a, "", DREQ)
     except RuntimeError as e:
@@ -869,8 +931,11 @@ def doc_correspondence(ctx, recs: List[Tuple[Dict[str, Any], Dict[str, Any]]], p
         stage_b.append(expr)
         idx_b.append((ri, run, len(stage_b) - 1))
     ctx.correspondence("doc_decode", n_decode, bad_decode)
+    t_b = time.time()
+    ctx.stats["doc_model_stage_a_s"] = round(t_b - t_a, 1)
     try:
         vals_b = eval_dedup(stage_b, pre, DREQ)
+        ctx.stats["doc_model_stage_b_s"] = round(time.time() - t_b, 1)
     except RuntimeError as e:
         ctx.proof_problems.append("model evaluation failed (documents): " + str(e)[:600])
         return
@@ -959,7 +1024,8 @@ def run_campaign(ctx) -> None:
         agg["fault_runs"] += res["stats"]["fault_runs"]
         agg["damage_runs"] += res["stats"]["damage_runs"]
         for k2 in ("byte_damage_runs", "stream_fault_runs", "still_parses_not_judged", "stream_faults_undetectable_short_read", "timeouts",
-                   "doc_damage_runs", "doc_emptied_in_place_not_judged", "doc_emptied_in_place_deleted_reachable"):
+                   "doc_damage_runs", "doc_emptied_in_place_not_judged", "doc_emptied_in_place_deleted_reachable",
+                   "doc_legacy_json_section_lost_reads_empty_not_judged"):
             agg[k2] = agg.get(k2, 0) + res["stats"].get(k2, 0)
         agg.setdefault("records_per_list", []).append(res.get("shape", {}).get("lists"))
         agg.setdefault("records_per_manifest", []).append(res.get("shape", {}).get("manifests"))
@@ -1080,18 +1146,24 @@ def run(ctx) -> None:
     logging.disable(logging.CRITICAL)
     ctx.rule = ("one evaluation = one real collection with one fault plan (a fault at one storage call: 4 kinds, or the stream failing "
                 "part-way; thorough: pairs) or one damaged reachable file (6 whole-file classes; single-byte flips and truncations at "
-                "many offsets), judged by the independent oracle and compared with the model; distinct by (table, fault kind, call, "
-                "file role, offset)")
+                "many offsets; one structured operation -- drop / null / retype / empty -- at one key path of the document), judged by "
+                "the independent oracle and compared with the model; distinct by (table, fault kind, call, file role, offset / "
+                "operation and key path)")
     ctx.trusted_base += [
         "translator/gen_norm.py (regenerated path kernel; try/except skeleton of collect / _load_inflight_protection / _marker_targets / _gc_prefix pinned)",
         "harness: harness/props/c07.py, harness/lib/gcsim.py (fault injection by wrapping the storage backend object; independent reader; frozen clock)",
         "fault model: FRaise = OSError/FileNotFoundError, FRaiseX = any non-OSError exception, FBad = unusable result; one fault changes one call",
+        "translator/gen_meta.py (reader shapes of _dict_to_metadata / read_manifest(_list)_file; which dataclasses validate); harness/lib/docdamage.py",
+        "external validations measured per document and passed to the model as the parameter `ext`: Schema(...) on the items of `schemas`; "
+        "the int()-keyed statistics maps of a manifest entry",
     ]
     ctx.assumptions += [
         "writer-side path forms (wf_store) -- see C05",
         "metadata_manager.refresh() is outside the collector model: faults inside it are judged by the oracle only (C10 / C14 own pointer and metadata damage)",
         "an abort raised by a sweep's own listing (failure or '../' entry) may follow deletions of true orphans: the property's second disjunct",
-        "damage that still parses as an empty JSON manifest is not judged (DESIGN.md section 7 interpretation, as for C14)",
+        "damage that still parses as an empty JSON manifest is not judged (DESIGN.md section 7 interpretation, as for C14); the same for a "
+        "legacy JSON list / manifest whose `manifests` / `files` section is dropped or replaced by an empty object / string",
+        "a value emptied in place (same type) or an Avro container with zero records is a well-formed document saying something else: not judged",
     ]
     ctx.proofs(THEOREMS, gen_files=["GenNorm.v", "GenMeta.v"])
     ctx.allow_axioms([])
